@@ -600,6 +600,7 @@ IslOrthoTrunc(a, caps, asInt) ==
                             !.rk = [t \in 1..(d + 1) |-> Min(g.rk[t], caps[t])],
                             !.isl = NoIsl]
        IN  /\ d >= 2 /\ Len(caps) = d + 1
+           /\ \A t \in 2..d : ~CapSplitsTie(isl.sig, caps[t])      \* determined effect only (see Islands!CapSplitsTie)
            /\ Step([op |-> "IslOrthoTrunc", a |-> a, caps |-> caps, asInt |-> asInt, val |-> o.d,
                     errsq |-> SumSq(isl.sig, (1..K) \ keep) * IslScaleSq(isl),
                     boundsq |-> ISumTo([t \in 1..(d - 1) |-> SumSq(isl.sig, (1..K) \ TopIdx(isl.sig, caps[t + 1]))], d - 1)
@@ -625,6 +626,7 @@ FromArray(a, r, p, q) ==
            res == [Obj(dn, rk) EXCEPT !.st = IF exactPred THEN "exact" ELSE "opaque", !.lo = 0..(d - 2)]
        IN  /\ (p # 0 => (\E n \in 1..Len(o.d.v) : o.d.v[n] # CZ))
            /\ (p # 0 /\ HasIsl(o) => ~ThrTie(isl.sig, p, q))
+           /\ (r # 0 /\ HasIsl(o) => ~CapSplitsTie(isl.sig, r))
            /\ Step([op |-> "FromArray", a |-> a, maxrank |-> r, thrp |-> p, thrq |-> q, val |-> o.d,
                     island |-> HasIsl(o),
                     errsq |-> IF HasIsl(o) THEN SumSq(isl.sig, (1..K) \ keep) * IslScaleSq(isl) ELSE -1],
